@@ -686,6 +686,9 @@ fn outcome_of(res: Result<ResolvedRecord, dns_resolver::util::types::ResolutionE
                 o.authority = vec![s];
             }
         }
+        Ok(ResolvedRecord::Referral { ns_rrs }) => {
+            o.authority = ns_rrs;
+        }
         Err(_) => {}
     }
     if o.answers.is_empty() && o.authority.is_empty() && o.rcode == 0 {
